@@ -206,7 +206,7 @@ let rec split_bar acc = function
 
 let read_kinds = Hashtbl.create 16
 
-let handle_script line n toks =
+let handle_script ?(tag = "S") line n toks =
   let reads_t, events_t = split_bar [] toks in
   let rs = lmap read_of_token reads_t in
   let n = int_of_string n in
@@ -222,7 +222,7 @@ let handle_script line n toks =
     ^ (if nframes = 0 then "/0f" else if nframes = 1 then "/1f" else "/nf")
     ^ if llen bs mod 16 <> 0 then "+tail" else ""
   in
-  note_case ~nontrivial:(nframes > 0 || e <> None) ("S-" ^ kind) (clip line);
+  note_case ~nontrivial:(nframes > 0 || e <> None) (tag ^ "-" ^ kind) (clip line);
   let bump k = Hashtbl.replace read_kinds k (1 + try Hashtbl.find read_kinds k with Not_found -> 0) in
   bump (Printf.sprintf "reads<=%d" (let l = llen rs in if l <= 1 then 1 else if l <= 4 then 4 else if l <= 16 then 16 else if l <= 64 then 64 else 100000));
   (* the harness stops after the second false: the last two events must be stops *)
@@ -244,7 +244,7 @@ let handle_script line n toks =
     pfail (clip line) clause (Printf.sprintf "call#%d:%s" i (clip want))
   end
 
-let handle_transmit_seq line toks =
+let handle_transmit_seq ?(tag = "X") line toks =
   let calls_t, events_t = split_bar [] toks in
   let calls =
     lmap
@@ -282,9 +282,10 @@ let handle_transmit_seq line toks =
           (hex_of_z a.ans_write_n) (if a.ans_write <> None then "e" else "")
           (match r with TxOk -> "-ok" | TxErr _ -> "-err" | TxPanic -> "-panic")
       in
+      let k = if tag = "X" then k else tag ^ "-calls" in
       Hashtbl.replace kinds k (1 + try Hashtbl.find kinds k with Not_found -> 0))
     (List.combine calls results);
-  note_case "X" line;
+  note_case tag line;
   if events_t <> expected then begin
     let clause =
       let count p l = llen (List.filter p l) in
@@ -460,6 +461,59 @@ let handle_multi_tx line toks =
     pfail line clause (Printf.sprintf "event#%d:%s (got %s)" idx want got)
   end
 
+(* ------------------------------------------------------------------ C07: Transmitter + Receiver on one connection *)
+
+let tx_ev_str = function TxSetDeadline -> "D" | TxWrite bs -> "W" ^ hex_of_data bs | TxIntercept f -> "I" ^ frame_str f
+let tx_res_str = function TxOk -> "R-" | TxErr e -> "R" ^ code_of_error e | TxPanic -> "RP"
+
+let handle_shared line kind toks =
+  let ops_t, rest = split_bar [] toks in
+  let reads_t, obs_t = split_bar [] rest in
+  let on_file = kind = "can" in
+  (* expected observation of every transmit, and the frames that reached the connection *)
+  let sent = ref [] in
+  let tx_expected t =
+    let c = tail_from t 1 in
+    if on_file then
+      match String.split_on_char ';' c with
+      | [ fr; dl; da; wn; wa; "s" ] ->
+          let a = { ans_deadline = opt_error_of_code da; ans_write = opt_error_of_code wa; ans_write_n = z_of_hex wn } in
+          let evs, r = transmit (bool_of dl) a (frame_of_str fr) in
+          String.concat "," (lmap tx_ev_str evs @ [ tx_res_str r ])
+      | _ -> failwith ("bad call " ^ t)
+    else
+      match String.split_on_char ';' c with
+      | [ fr; _ ] ->
+          (* a real connection accepts every Write: the call succeeds, the 16 bytes are on the wire *)
+          let f = frame_of_str fr in
+          (match transmit_bytes f with Some b -> sent := RData b :: !sent | None -> failwith "model: transmit_bytes = None");
+          "I" ^ frame_str f ^ ",R-"
+      | _ -> failwith ("bad call " ^ t)
+  in
+  let tx_exp = lmap (fun t -> if t.[0] = 't' then Some (tx_expected t) else None) ops_t in
+  let rs = if on_file then lmap read_of_token reads_t else List.rev !sent in
+  let nrecv = llen (List.filter (fun t -> t = "r") ops_t) in
+  let spec = lmap event_str (spec_calls (nat_of_int nrecv) rs) in
+  if spec <> lmap event_str (receive_calls (nat_of_int nrecv) rs) then
+    failwith ("model and specification differ (receive_calls): " ^ clip line);
+  let rec weave exps spec =
+    match exps with
+    | [] -> []
+    | Some e :: tl -> e :: weave tl spec
+    | None :: tl -> ( match spec with s :: sp -> s :: weave tl sp | [] -> failwith "weave")
+  in
+  let expected = weave tx_exp spec in
+  note_case ~nontrivial:(List.exists (fun t -> t.[0] = 'T') spec) ("U-" ^ kind) (clip_long line);
+  if obs_t <> expected then begin
+    let idx, got, want = first_diff 0 obs_t expected in
+    let is_rx t = t <> "" && (t.[0] = 'T' || t.[0] = 'F' || t.[0] = 'H' || t.[0] = 'P') in
+    let clause =
+      if is_rx got || is_rx want then "reception-not-influenced-by-transmission-on-the-same-connection"
+      else "transmission-not-influenced-by-reception-on-the-same-connection"
+    in
+    pfail (clip_long line) clause (Printf.sprintf "obs#%d:%s (got %s)" idx (clip want) (clip got))
+  end
+
 let handle line =
   match split_ws line with
   | "C" :: toks -> handle_concurrent line toks
@@ -468,6 +522,9 @@ let handle line =
   | "R" :: blk :: "|" :: rest -> handle_block line blk rest
   | "S" :: n :: toks -> handle_script line n toks
   | "X" :: toks -> handle_transmit_seq line toks
+  | "SF" :: n :: toks -> handle_script ~tag:"SF" line n toks
+  | "XF" :: toks -> handle_transmit_seq ~tag:"XF" line toks
+  | "U" :: kind :: toks -> handle_shared line kind toks
   | "Q" :: toks -> handle_split line toks
   | "M" :: toks -> handle_multi line toks
   | "N" :: toks -> handle_multi_tx line toks
